@@ -5,6 +5,19 @@ def oracle_cap(case, impl):
     """C04 direct check: after the storm exactly K slow queries run concurrently, all K+2 are
     answered, and the proxy is alive."""
     k = int(case.split(" ")[1])
+    if case.startswith("capudp "):
+        m = re.match(r"max=(\d+) replied=(\d+)/(\d+) returned=([01])$", impl)
+        if not m:
+            return "unexpected harness output: " + impl[:80]
+        n = case.split(" ")[2]
+        if int(m.group(1)) < k or m.group(2) != m.group(3):
+            return ("after %s transient failures of the UDP listener's pending read only %s of %d queries ran concurrently and %s/%s "
+                    "were answered: the read-error path keeps capacity units" % (n, m.group(1), k, m.group(2), m.group(3)))
+        if int(m.group(1)) > k:
+            return "%s queries were processed concurrently with max-inflight-requests=%d" % (m.group(1), k)
+        if m.group(4) != "1":
+            return "serveUDP did not return after its socket was closed (after %s transient read failures)" % n
+        return None
     m = re.match(r"max=(\d+) replied=(\d+)/(\d+) probe=(\w+)", impl)
     if not m:
         return "unexpected harness output: " + impl[:80]
